@@ -58,5 +58,5 @@ Definition macroman_probe (l : list Z) : list Z := map (fun c => enc_bool (macro
 (* constructors *)
 Definition ctor_group (a : cfg * list Z * bool * Z) : list Z :=
   let '(c, n, o, pix) := a in obs (new_group c n o pix).
-Definition ctor_pixel (a : bool * list Z * (Z * Z * Z * Z) * (Z * Z * Z)) : list Z :=
-  let '(att, n, (t, l, w, h), (dw, dh, pix)) := a in obs (new_pixel att n t l w h dw dh pix).
+Definition ctor_pixel (a : cfg * bool * list Z * (Z * Z * Z * Z) * (Z * Z * Z)) : list Z :=
+  let '(c, att, n, (t, l, w, h), (dw, dh, pix)) := a in obs (new_pixel c att n t l w h dw dh pix).
